@@ -5,7 +5,7 @@ from checks import c32
 
 PID = "C31"
 META = {
-    "text": "Theorems (Properties_C31.v, 18, closed under the global context) state for ALL byte strings: AnyP::Uri::Decode is RFC 3986 percent-decoding; Decode(Encode(s)) = s for the userinfo encoder of Uri::absolute(), for RFC3986_UNRESERVED and for every ignore set without '%'; every encoded form consists of ignore-set bytes and well-formed %XX triplets only; rfc1738_unescape(rfc1738_do_escape(s)) = s for every flag set of the tree that escapes '%' (2, 3, 7); and the in-place rfc1738_unescape loop, modelled on an explicit buffer, never reads or writes outside the C string, leaves the memory after the terminator untouched and computes a reference function. Refuted (with witnesses confirmed on the real code, recorded as known findings) and proved in restricted form: the round trip for Uri::absolutePath() (PathChars contains '%') and for the rfc1738 flag sets that leave '%' alone (0, 4, 259, 387). Encoders are per-byte maps whose tables are regenerated from the code on every run; the model is tied to the code by differential runs (all strings up to length 2, thorough: 3, plus random up to 4 KB, ASan).",
+    "text": "Theorems (Properties_C31.v, 18, closed under the global context) state for ALL byte strings: AnyP::Uri::Decode is RFC 3986 percent-decoding; Decode(Encode(s)) = s for the userinfo encoder of Uri::absolute(), for RFC3986_UNRESERVED and for every ignore set without '%'; every encoded form consists of ignore-set bytes and well-formed %XX triplets only; rfc1738_unescape(rfc1738_do_escape(s)) = s for every flag set of the tree that escapes '%' (2, 3, 7); and the in-place rfc1738_unescape loop, modelled on an explicit buffer, never reads or writes outside the C string, leaves the memory after the terminator untouched and computes a reference function. Refuted (with witnesses confirmed on the real code, recorded as known findings) and proved in restricted form: the round trip for Uri::absolutePath() (PathChars contains '%') and for the rfc1738 flag sets that leave '%' alone (0, 4, 259, 387). Encoders are per-byte maps whose tables are regenerated from the code on every run; the model is tied to the code by differential runs under ASan (all strings up to length 2 for the decoders, the userinfo encoder and rfc1738_escape, up to length 1 and a 32-symbol pair alphabet for the rest; thorough: length 2 for everything, length 3 for rfc1738_unescape and with class-representative first bytes for the others; plus random strings up to 4 KB).",
     "note": "Trusted: Coq kernel, extraction, gen/gen_bytemaps.cc, harness/h_quote.cc and the sweep/digest glue in ml/run_quote.ml; that the encoders are per-byte maps on long strings, and the hand-written decoder models, are validated against the code on the generated cases only. Exhaustive length-2/3 sweeps are evaluated inside the harness (round-trip failures counted there, result lines compared with the model by digest).",
     "technique": "Coq proof (vm_compute sweeps over the regenerated 256-entry tables, induction on strings, refinement of the fuel-driven Decode loop and of the in-place two-index unescape loop to structural reference decoders) + extracted-model differential correspondence",
 }
@@ -100,14 +100,17 @@ def gen_cases(rng, n, tier="quick"):
         for first in range(256):
             cases.append("sweep %s %s %02x 1" % (op, arg, first))
     if tier == "thorough":
-        # all strings of length 3 for the decoders; for the encoders the first byte ranges over one
-        # representative per behaviour class (controls, space, '%', reserved, unreserved, DEL, 8-bit, edges)
+        # all strings of length 3 for rfc1738_unescape; for Uri::Decode and the encoders the first byte ranges
+        # over one representative per behaviour class (controls, space, '%', hex digits, reserved, unreserved,
+        # DEL, 8-bit, edges) -- the proofs cover every length, this is correspondence evidence only
+        reps = sorted(set(b"\x00\x01\x09\x0a\x1f !\"#%&'+-./09:;<=>?@AZ[\\]^_`az{|}~\x7f\x80\xff"))
         for first in range(256):
             for second in range(256):
-                p = "%02x%02x" % (first, second)
-                cases.append("sweep uri.dec - %s 1" % p)
-                cases.append("sweep unesc - %s 1" % p)
-        for first in sorted(set(b"\x00\x01\x09\x0a\x1f !\"#%&'+-./09:;<=>?@AZ[\\]^_`az{|}~\x7f\x80\xff")):
+                cases.append("sweep unesc - %02x%02x 1" % (first, second))
+        for first in sorted(set(reps) | set(HEXD)):
+            for second in range(256):
+                cases.append("sweep uri.dec - %02x%02x 1" % (first, second))
+        for first in reps:
             for second in range(256):
                 p = "%02x%02x" % (first, second)
                 cases.append("sweep uri.rt ui %s 1" % p)
@@ -325,8 +328,8 @@ def nontrivial(c, o):
 def run(res, tier):
     res.rule = ("in-harness sweeps compared with the model by digest: all byte strings of length <= 1 for every operation (3 URI "
                 "ignore sets, 7 rfc1738 flag sets, both decoders), all 65536 of length 2 for both decoders, the userinfo encoder "
-                "and rfc1738_escape (thorough: every operation; all of length 3 for the decoders, and for "
-                "userinfo / rfc1738_escape with the first byte over 36 class representatives); single cases through the Python oracle: "
+                "and rfc1738_escape (thorough: every operation; all of length 3 for rfc1738_unescape, and for "
+                "Uri::Decode / userinfo / rfc1738_escape with the first byte over ~40 class representatives); single cases through the Python oracle: "
                 "all strings of length <= 1 and all pairs over a 32-symbol alphabet for every operation, '%'+2-byte decoder inputs, "
                 "random strings up to 4 KB, random ignore sets, decoder inputs mixing valid, truncated and non-hex triplets, %%, %00 and "
                 "embedded NUL; non-trivial = something was encoded / decoded")
